@@ -534,7 +534,7 @@ Lemma led_step c t : IInvA e L c -> Led c -> In t L -> istep_nowrap c t -> Led (
 Proof.
   intros A I Hin Hw. unfold istep_nowrap in Hw.
   pose proof (a_prot e L c A) as P.
-  destruct (t_pc (c_pool c t)) as [|q|q b|q b|q b g|q b g|q b g|q b g| |hm|hm] eqn:Hpc.
+  destruct (t_pc (c_pool c t)) as [|q|q b|q b|q b|q b g|q b g|q b g|q b g| |hm|hm] eqn:Hpc.
   - (* the call point *)
     destruct (t_todo (c_pool c t)) as [|o rest] eqn:Htodo.
     + rewrite (istep_idle_nil e c t) by assumption. exact I.
@@ -551,6 +551,10 @@ Proof.
     + destruct (b <? s_y (c_sh c)).
       * apply led_finish_end; try assumption; try reflexivity; rewrite Hpc; reflexivity.
       * apply led_silent; try assumption; [|reflexivity]. rewrite Hpc. reflexivity.
+  - (* its turn: the completed flag once more *)
+    rewrite (istep_chkt e c t q b Hpc). destruct (s_f (c_sh c)).
+    + apply led_finish_end; try assumption; try reflexivity; rewrite Hpc; reflexivity.
+    + apply led_silent; try assumption; [|reflexivity]. rewrite Hpc. reflexivity.
   - (* one call of the wrapped iterator *)
     assert (Hsame : forall x sh' l, crit_at x b g -> s_cur sh' = s_cur (c_sh c) -> Led (commit c t sh' (set_pc (c_pool c t) x) l [])).
     { intros x sh' l Hx Ec. apply led_silent; try assumption. rewrite (got_crit _ _ _ Hx), Hpc. reflexivity. }
